@@ -187,6 +187,11 @@ func addTenants(ss *scenarioSet, thorough bool) {
 	ss.add(Scenario{Name: "D8-two-keys", QB: 1, TB: 2, Signal: "traces", S: 2, Timeout: T, Early: true, Keys: []string{"B", "a"}, Limit: 2,
 		Callers: []CallerSpec{{Label: "A", Reqs: one("A", 1), Metadata: md("a", "x", "b", "y")}, {Label: "B", Reqs: one("B", 1), Metadata: md("a", "y", "b", "x")},
 			{Label: "C", Reqs: one("C", 1), Metadata: md("A", "x", "B", "y")}}})
+	// two first arrivals of one combination race, then a second combination arrives with two requests
+	// that are merged (the batch is exported with the shard's own metadata context)
+	ss.add(Scenario{Name: "D8-race-then-new", QB: 1, TB: 2, Signal: "traces", S: 2, Timeout: T, Early: true, Keys: keys, Limit: 0,
+		Callers: []CallerSpec{{Label: "A", Reqs: one("A", 1), Metadata: md("tenant", "x")}, {Label: "B", Reqs: one("B", 1), Metadata: md("tenant", "x")},
+			{Label: "C", ArriveAt: T / 4, Reqs: one("C", 1), Metadata: md("tenant", "y")}, {Label: "D", ArriveAt: T / 4, Reqs: one("D", 1), Metadata: md("tenant", "y")}}})
 	// a refused caller retries after the slot race; second request of an admitted tenant still works
 	ss.add(Scenario{Name: "D8-limit1-two-requests", Signal: "traces", S: 1, Timeout: T, Keys: keys, Limit: 1,
 		Callers: []CallerSpec{{Label: "A", Reqs: []Shape{simple("traces", "A", 1), simple("traces", "A2", 1)}, Metadata: md("tenant", "x")},
@@ -197,6 +202,16 @@ func addTenants(ss *scenarioSet, thorough bool) {
 			Callers: []CallerSpec{{Label: "A", Reqs: one("A", 1), Metadata: md("tenant", "x")},
 				{Label: "B", Reqs: []Shape{simple("traces", "B", 1), simple("traces", "B2", 1)}, Metadata: md("tenant", "y")}}})
 	}
+	// the flush timer ticks on an idle shard, then a size-triggered flush, then one more request and Shutdown
+	for _, early := range []bool{false, true} {
+		for _, sz := range []int{2, 3} {
+			ss.add(Scenario{Name: fmt.Sprintf("D3-idle-tick/er%s/a%d", bools(early), sz), QB: 1, TB: 2, Signal: "traces", S: 2, Timeout: T, Early: early, ShutdownAt: 6 * T, NumCPU: 1,
+				Callers: []CallerSpec{{Label: "A", ArriveAt: 3 * T / 2, Reqs: one("A", sz)}, {Label: "B", ArriveAt: 5 * T / 2, Reqs: one("B", 1)}}})
+		}
+	}
+	// cancellation of a first-ever request of one tenant while another tenant's first request waits downstream
+	ss.add(Scenario{Name: "D7-cancel-tenants", QB: 2, TB: 2, Signal: "traces", S: 4, Timeout: T, Keys: keys, Limit: 0,
+		Callers: []CallerSpec{{Label: "A", Reqs: one("A", 1), Metadata: md("tenant", "x")}, {Label: "B", Cancellable: true, Reqs: one("B", 1), Metadata: md("tenant", "y")}}})
 	if thorough {
 		ss.add(Scenario{Name: "D8-limit2-race3-k1", TB: 2, Signal: "traces", S: 1, Timeout: T, Keys: keys, Limit: 2, K: 1,
 			Callers: []CallerSpec{{Label: "A", Reqs: one("A", 1), Metadata: md("tenant", "x")}, {Label: "B", Reqs: one("B", 1), Metadata: md("tenant", "y")},
@@ -272,7 +287,8 @@ func addContexts(ss *scenarioSet, thorough bool) {
 
 // T9: size limits and flush deadlines under a quiescent virtual clock
 func addTiming(ss *scenarioSet, thorough bool) {
-	cfgs := [][3]int{{0, 0, 1}, {0, 3, 1}, {3, 0, 0}, {3, 3, 1}, {3, 5, 1}, {2, 0, 1}, {4, 4, 0}}
+	// (2,3,T): a request of 5 leaves a remainder in [size, max) after the split
+	cfgs := [][3]int{{0, 0, 1}, {0, 3, 1}, {3, 0, 0}, {3, 3, 1}, {3, 5, 1}, {2, 0, 1}, {4, 4, 0}, {2, 3, 1}}
 	sizes := []int{1, 2, 3, 5}
 	if thorough {
 		sizes = []int{1, 2, 3, 5, 7}
@@ -449,7 +465,14 @@ func addSeqLayer(ss *scenarioSet, thorough bool) {
 	for _, sig := range []string{"traces", "logs", "metrics"} {
 		pack := Scenario{Name: "SEQ-" + sig + "-" + tierTag(thorough), ZeroBound: true}
 		for m := 1; m <= maxN; m++ {
-			for _, sz := range []int{0, m} {
+			szs := []int{0, m}
+			if m >= 2 {
+				szs = append(szs, m-1) // max > size: remainders in [size, max)
+			}
+			if m >= 4 {
+				szs = append(szs, 2)
+			}
+			for _, sz := range szs {
 				for a := 1; a <= maxN; a++ {
 					for b := 1; b <= maxN; b++ {
 						reqs := []Shape{simple(sig, "A", a), simple(sig, "B", b)}
